@@ -260,6 +260,7 @@ def one_case(rng, res, gpg, combo=None):
     try:
         ch, desc = gen_grid_case(rng, root, combo) if combo else gen_case(rng, root, gpg)
         scn = scen.build(ch, root, rng)
+        scn.params = vcommon.pick_params(rng, desc)
         nbad = sum(1 for f in desc["files"] if not f["counts_for"])
         nontrivial = (desc["good_functionaries"] >= 1 and nbad >= 1) or gpg
         i, m, _ = vcommon.run_case(scn, desc, res, nontrivial)
